@@ -38,6 +38,16 @@ def bounded_loop_rule(ctx, rid, body, site_bbs, what, max_iter, const_item, key_
             ctx.ok(rid, "%s @bb%d is not in any loop (single transmission)" % (what, sbb))
             continue
         if not inl:
+            # the same bound written as a counter: `let mut left = N; while left > 0 { left -= 1; .. }`
+            from ..loops import counted_loop, unexplained_loops
+            inner = [x for x in unexplained_loops(body) if sbb in x]
+            cl = counted_loop(body, inner[0]) if inner else None
+            if cl is not None and cl["bound"] is not None:
+                ctx.require(rid, 1 <= cl["bound"] <= max_iter, where(body, cl["test_bb"]), "%s repeats at most %s times: counted loop (bound %d)" % (what, cl["bound"], max_iter),
+                            [key_fn, "loop-bound"])
+                after = body.reachable_after(sbb, removed_nodes=cl["step_blocks"])
+                ctx.require(rid, sbb not in after, where(body, sbb), "%s happens once per loop iteration (every cycle passes the counter step)" % what, [key_fn, "once-per-iteration"])
+                continue
             ctx.fail(rid, where(body, sbb), "%s is repeated by a loop that is not a bounded `for _ in 0..N` range loop" % what,
                      [key_fn, "unbounded-loop"])
             continue
